@@ -126,6 +126,11 @@ FAMILIES = {
         {'family': 'lease', 'knobs': {'p_reconnect': 0.2}, 'quick': 250, 'thorough': 4000, 'first': 500000,
          'also': ('C14.released_when_lease_allows', 'C14.fifo_release', 'C14.no_request_before_first_lease', 'C01.all_delivered_at_quiescence',
                   'C01.request_delivered_once_to_matching_handler')},
+        # after the reconnect the application re-subscribes first and releases what it held of the old connection afterwards (a late
+        # cancel() / request() / future.cancel() on interactions the reconnect has failed): the new requests are served all the same
+        {'family': 'reconnect', 'knobs': {'who': 'app', 'min_pending': 1, 'kinds': ['stream', 'stream', 'rr'], 'p_late_tidy': 1.0, 'p_stale_fragments': 0.0,
+                                          'p_window': 0.0, 'p_teardown_race': 0.0}, 'quick': 200, 'thorough': 3000, 'first': 800000,
+         'also': ('C01.all_delivered_at_quiescence', 'C01.request_delivered_once_to_matching_handler')},
     ],
     'C20': [
         {'family': 'adapters', 'knobs': {'version': 'reactivex'}, 'quick': 300, 'thorough': 5000},
